@@ -36,23 +36,23 @@ package fox
 //@   requires safety-live: !released[box(c)]
 //@   requires safety-wf: heapWF()
 //@   -- a recording walk starts with an empty parameter list: the saved parameter counts are absolute positions in it
-//@   requires params-empty: !lazy ==> len(*c.params) == 0
+//@   requires @C01,C11,C12 params-empty: !lazy ==> len(*c.params) == 0
 //@   modifies C[Params], C[skippedNodes], E[Param], E[skippedNode], released, poolOut
 //@   assume-at after (*Pool).Get#1 : pool-discipline: dyntypeIs(call_result, *cTx) && ctxOf(call_result) != nil && ctxOf(call_result) != c && ctxOf(call_result).params != nil && ctxOf(call_result).tsrParams != nil && ctxOf(call_result).skipNds != nil && ctxOf(call_result).params != ctxOf(call_result).tsrParams && ctxOf(call_result).params != c.params && ctxOf(call_result).params != c.tsrParams && ctxOf(call_result).tsrParams != c.params && ctxOf(call_result).tsrParams != c.tsrParams && ctxOf(call_result).skipNds != c.skipNds && !released[box(ctxOf(call_result))]
 //@   -- assumed: a walk on another pooled context leaves this context's buffers alone (the pool never hands out a context in use)
 //@   assume-at after lookupByPath#1 : sub-walk-frame: stackOK(c, path) && stackMono(c) && stackTop(c, paramCnt) && paramCnt <= len(*c.params) && paramCnt <= charsMatched && !released[box(c)] && (lazy ==> len(*c.params) <= old(len(*c.params)))
 //@   -- cut point at the backtrack step (keeps the proof of the Walk invariant on this edge small)
 //@   assert-at call (*skippedNodes).pop#1 : backtrack: (tsr ==> n != nil) && (n != nil ==> n.route != nil)
-//@   -- the first trailing-slash candidate found is the most specific one and is kept: the candidate node is
-//@   -- assigned only while there is none, the flag is raised only once
+//@   -- the first trailing-slash candidate found is the most specific one and is kept: the flag is raised only once,
+//@   -- and the candidate node is assigned only together with it
 //@   -- the trailing-slash parameters are exactly the parameters recorded so far, the catch-all value, then the sub-walk's trailing-slash parameters (nothing a previous request left in the buffer)
 //@   assert-at after builtin.append#5 : @C08,C01,C12 tsr-params-fresh: len(call_result) == len(*c.params) + 1 + len(*subCtx.tsrParams)
-//@   assert-at store-local n : @C01,C08 first-candidate: n == nil && new_value != nil
+//@   assert-at store-local n : @C01,C08 with-flag: tsr && new_value != nil
 //@   assert-at store-local tsr : @C01,C08 raised-once: !tsr && new_value
 //@   ensures tsr-node: result1 ==> result0 != nil
 //@   ensures leaf: result0 != nil ==> result0.route != nil
 //@   ensures live: !released[box(c)]
-//@   ensures lazy-len: lazy ==> len(*c.params) <= old(len(*c.params))
+//@   ensures @C01,C11,C12 lazy-len: lazy ==> len(*c.params) <= old(len(*c.params))
 //@   -- every sub-context taken from the tree's pool is put back on every path (a leaked context is an allocation on a later request)
 //@   ensures @C16,C01 pool-balance: poolOut[&tree.ctx] == old(poolOut[&tree.ctx])
 //@   loop 1: invariant @C16,C01 pool-balance: poolOut[&tree.ctx] == old(poolOut[&tree.ctx])
@@ -61,35 +61,35 @@ package fox
 //@   loop 4: invariant @C16,C01 pool-balance: poolOut[&tree.ctx] == old(poolOut[&tree.ctx])
 //@   loop 1: invariant current != nil && 0 <= charsMatched && charsMatched <= len(path) && (charsMatched < len(path) ==> paramKeyCnt == 0) && paramCnt <= len(*c.params)
 //@   loop 1: invariant at-end: charsMatched == len(path) ==> 0 <= charsMatchedInNodeFound && charsMatchedInNodeFound <= len(current.key)
-//@   loop 1: invariant stack: stackOK(c, path) && stackMono(c) && stackTop(c, paramCnt)
-//@   loop 1: invariant tsr-n: (tsr <==> n != nil) && (n != nil ==> n.route != nil)
+//@   loop 1: invariant @C01,C11,C12 stack: stackOK(c, path) && stackMono(c) && stackTop(c, paramCnt)
+//@   loop 1: invariant tsr-n: (tsr ==> n != nil) && (n != nil ==> n.route != nil)
 //@   loop 1: invariant no-wrap: paramCnt <= charsMatched
 //@   loop 1: invariant live: !released[box(c)]
-//@   loop 1: invariant lazy-len: lazy ==> len(*c.params) <= old(len(*c.params))
-//@   loop 1: invariant params-count: !lazy ==> len(*c.params) == paramCnt
+//@   loop 1: invariant @C01,C11,C12 lazy-len: lazy ==> len(*c.params) <= old(len(*c.params))
+//@   loop 1: invariant @C01,C11,C12 params-count: !lazy ==> len(*c.params) == paramCnt
 //@   loop 2: invariant current != nil && 0 <= charsMatched && charsMatched <= len(path) && 0 <= i && i == charsMatchedInNodeFound && i <= len(current.key) && paramCnt <= len(*c.params)
 //@   loop 2: invariant pkc: paramKeyCnt == cnt(current.key, charsMatchedInNodeFound) && paramKeyCnt <= len(current.params)
-//@   loop 2: invariant stack: stackOK(c, path) && stackMono(c) && stackTop(c, paramCnt)
-//@   loop 2: invariant tsr-n: (tsr <==> n != nil) && (n != nil ==> n.route != nil)
+//@   loop 2: invariant @C01,C11,C12 stack: stackOK(c, path) && stackMono(c) && stackTop(c, paramCnt)
+//@   loop 2: invariant tsr-n: (tsr ==> n != nil) && (n != nil ==> n.route != nil)
 //@   loop 2: invariant no-wrap: paramCnt <= charsMatched
 //@   loop 2: invariant live: !released[box(c)]
-//@   loop 2: invariant lazy-len: lazy ==> len(*c.params) <= old(len(*c.params))
-//@   loop 2: invariant params-count: !lazy ==> len(*c.params) == paramCnt
+//@   loop 2: invariant @C01,C11,C12 lazy-len: lazy ==> len(*c.params) <= old(len(*c.params))
+//@   loop 2: invariant @C01,C11,C12 params-count: !lazy ==> len(*c.params) == paramCnt
 //@   loop 3: invariant current != nil && 0 <= startPath && startPath <= charsMatched && charsMatched <= len(path) && inode != nil && subCtx != nil && subCtx != c && subCtx.params != nil && subCtx.tsrParams != nil && subCtx.skipNds != nil && paramCnt <= len(*c.params)
 //@   loop 3: invariant pkc: paramKeyCnt < len(current.params) && 0 <= charsMatchedInNodeFound && charsMatchedInNodeFound <= len(current.key)
 //@   loop 3: invariant live-sub: !released[box(subCtx)]
-//@   loop 3: invariant stack: stackOK(c, path) && stackMono(c) && stackTop(c, paramCnt)
-//@   loop 3: invariant tsr-n: (tsr <==> n != nil) && (n != nil ==> n.route != nil)
+//@   loop 3: invariant @C01,C11,C12 stack: stackOK(c, path) && stackMono(c) && stackTop(c, paramCnt)
+//@   loop 3: invariant tsr-n: (tsr ==> n != nil) && (n != nil ==> n.route != nil)
 //@   loop 3: invariant no-wrap: paramCnt <= charsMatched
 //@   loop 3: invariant live: !released[box(c)]
-//@   loop 3: invariant lazy-len: lazy ==> len(*c.params) <= old(len(*c.params))
+//@   loop 3: invariant @C01,C11,C12 lazy-len: lazy ==> len(*c.params) <= old(len(*c.params))
 //@   loop 4: invariant current != nil && 0 <= charsMatched && charsMatched < len(path) && 0 <= i#2 && i#2 <= len(current.childKeys) && idx#5 == -1 && paramCnt <= len(*c.params) && 0 <= charsMatchedInNodeFound && charsMatchedInNodeFound <= len(current.key)
-//@   loop 4: invariant stack: stackOK(c, path) && stackMono(c) && stackTop(c, paramCnt)
-//@   loop 4: invariant tsr-n: (tsr <==> n != nil) && (n != nil ==> n.route != nil)
+//@   loop 4: invariant @C01,C11,C12 stack: stackOK(c, path) && stackMono(c) && stackTop(c, paramCnt)
+//@   loop 4: invariant tsr-n: (tsr ==> n != nil) && (n != nil ==> n.route != nil)
 //@   loop 4: invariant no-wrap: paramCnt <= charsMatched
 //@   loop 4: invariant live: !released[box(c)]
-//@   loop 4: invariant lazy-len: lazy ==> len(*c.params) <= old(len(*c.params))
-//@   loop 4: invariant params-count: !lazy ==> len(*c.params) == paramCnt
+//@   loop 4: invariant @C01,C11,C12 lazy-len: lazy ==> len(*c.params) <= old(len(*c.params))
+//@   loop 4: invariant @C01,C11,C12 params-count: !lazy ==> len(*c.params) == paramCnt
 
 //@ -- ---------------------------------------------------------------- the hostname walk (same discipline, '.'-separated labels, no catch-all)
 //@ pred subCtxOK(subCtx *cTx, c *cTx) = !released[box(subCtx)] && subCtx != nil && subCtx != c && subCtx.params != nil && subCtx.tsrParams != nil && subCtx.skipNds != nil && subCtx.params != subCtx.tsrParams && subCtx.params != c.params && subCtx.params != c.tsrParams && subCtx.tsrParams != c.params && subCtx.tsrParams != c.tsrParams && subCtx.skipNds != c.skipNds
@@ -100,7 +100,7 @@ package fox
 //@   requires safety-len: len(host) < 4294967295 && len(path) < 4294967295
 //@   requires safety-live: !released[box(c)]
 //@   requires safety-wf: heapWF()
-//@   requires params-empty: !lazy ==> len(*c.params) == 0
+//@   requires @C01,C09,C11,C12 params-empty: !lazy ==> len(*c.params) == 0
 //@   modifies C[Params], C[skippedNodes], E[Param], E[skippedNode], released, poolOut
 //@   assume-at after (*Pool).Get#1 : pool-discipline: dyntypeIs(call_result, *cTx) && subCtxOK(ctxOf(call_result), c)
 //@   -- assumed: a walk on another pooled context leaves this context's buffers alone (the pool never hands out a context in use)
@@ -109,7 +109,7 @@ package fox
 //@   assert-at call lookupByPath#1 : @C09,C01 whole-host: charsMatched == len(host) && charsMatchedInNodeFound == len(current.key) && same(arg_path, path) && arg_lazy == lazy
 //@   -- the trailing-slash parameters are exactly the host parameters recorded so far followed by the path walk's trailing-slash parameters
 //@   assert-at after builtin.append#5 : @C08,C01,C09,C12 tsr-params-fresh: len(call_result) == len(*c.params) + len(*subCtx.tsrParams)
-//@   assert-at store-local n : @C01,C08,C09 first-candidate: n == nil && new_value != nil
+//@   assert-at store-local n : @C01,C08,C09 with-flag: tsr && new_value != nil
 //@   assert-at store-local tsr : @C01,C08,C09 raised-once: !tsr && new_value
 //@   ensures @C16,C01 pool-balance: poolOut[&tree.ctx] == old(poolOut[&tree.ctx])
 //@   loop 1: invariant @C16,C01 pool-balance: poolOut[&tree.ctx] == old(poolOut[&tree.ctx])
@@ -120,35 +120,35 @@ package fox
 //@   ensures tsr-node: result1 ==> result0 != nil
 //@   ensures leaf: result0 != nil ==> result0.route != nil
 //@   ensures live: !released[box(c)]
-//@   ensures lazy-len: lazy ==> len(*c.params) <= old(len(*c.params))
+//@   ensures @C01,C09,C11,C12 lazy-len: lazy ==> len(*c.params) <= old(len(*c.params))
 //@   loop 1: invariant live: !released[box(c)]
-//@   loop 1: invariant lazy-len: lazy ==> len(*c.params) <= old(len(*c.params))
+//@   loop 1: invariant @C01,C09,C11,C12 lazy-len: lazy ==> len(*c.params) <= old(len(*c.params))
 //@   loop 1: invariant 0 <= i && i <= len(target.childKeys) && idx == -1 && len(*c.skipNds) == 0 && charsMatched == 0 && paramCnt == 0 && paramKeyCnt == 0 && !tsr && n == nil
 //@   loop 2: invariant current != nil && 0 <= charsMatched && charsMatched <= len(host) && (charsMatched < len(host) ==> paramKeyCnt == 0) && paramCnt <= len(*c.params) && subCtxOK(subCtx, c)
 //@   loop 2: invariant at-end: charsMatched == len(host) ==> 0 <= charsMatchedInNodeFound && charsMatchedInNodeFound <= len(current.key)
-//@   loop 2: invariant stack: stackOK(c, host) && stackMono(c) && stackTop(c, paramCnt)
-//@   loop 2: invariant tsr-n: (tsr <==> n != nil) && (n != nil ==> n.route != nil)
+//@   loop 2: invariant @C01,C09,C11,C12 stack: stackOK(c, host) && stackMono(c) && stackTop(c, paramCnt)
+//@   loop 2: invariant tsr-n: (tsr ==> n != nil) && (n != nil ==> n.route != nil)
 //@   loop 2: invariant no-wrap: paramCnt <= charsMatched
 //@   loop 2: invariant live: !released[box(c)]
-//@   loop 2: invariant lazy-len: lazy ==> len(*c.params) <= old(len(*c.params))
-//@   loop 2: invariant params-count: !lazy ==> len(*c.params) == paramCnt
+//@   loop 2: invariant @C01,C09,C11,C12 lazy-len: lazy ==> len(*c.params) <= old(len(*c.params))
+//@   loop 2: invariant @C01,C09,C11,C12 params-count: !lazy ==> len(*c.params) == paramCnt
 //@   loop 3: invariant current != nil && 0 <= charsMatched && charsMatched <= len(host) && 0 <= i#2 && i#2 == charsMatchedInNodeFound && i#2 <= len(current.key) && paramCnt <= len(*c.params) && subCtxOK(subCtx, c)
 //@   loop 3: invariant pkc: paramKeyCnt == cnt(current.key, charsMatchedInNodeFound) && paramKeyCnt <= len(current.params)
-//@   loop 3: invariant stack: stackOK(c, host) && stackMono(c) && stackTop(c, paramCnt)
-//@   loop 3: invariant tsr-n: (tsr <==> n != nil) && (n != nil ==> n.route != nil)
+//@   loop 3: invariant @C01,C09,C11,C12 stack: stackOK(c, host) && stackMono(c) && stackTop(c, paramCnt)
+//@   loop 3: invariant tsr-n: (tsr ==> n != nil) && (n != nil ==> n.route != nil)
 //@   loop 3: invariant no-wrap: paramCnt <= charsMatched
 //@   loop 3: invariant live: !released[box(c)]
-//@   loop 3: invariant lazy-len: lazy ==> len(*c.params) <= old(len(*c.params))
-//@   loop 3: invariant params-count: !lazy ==> len(*c.params) == paramCnt
+//@   loop 3: invariant @C01,C09,C11,C12 lazy-len: lazy ==> len(*c.params) <= old(len(*c.params))
+//@   loop 3: invariant @C01,C09,C11,C12 params-count: !lazy ==> len(*c.params) == paramCnt
 //@   loop 4: invariant current != nil && 0 <= charsMatched && charsMatched < len(host) && 0 <= i#3 && i#3 <= len(current.childKeys) && idx == -1 && paramCnt <= len(*c.params) && 0 <= charsMatchedInNodeFound && charsMatchedInNodeFound <= len(current.key) && subCtxOK(subCtx, c)
-//@   loop 4: invariant stack: stackOK(c, host) && stackMono(c) && stackTop(c, paramCnt)
-//@   loop 4: invariant tsr-n: (tsr <==> n != nil) && (n != nil ==> n.route != nil)
+//@   loop 4: invariant @C01,C09,C11,C12 stack: stackOK(c, host) && stackMono(c) && stackTop(c, paramCnt)
+//@   loop 4: invariant tsr-n: (tsr ==> n != nil) && (n != nil ==> n.route != nil)
 //@   loop 4: invariant no-wrap: paramCnt <= charsMatched
 //@   loop 4: invariant live: !released[box(c)]
-//@   loop 4: invariant lazy-len: lazy ==> len(*c.params) <= old(len(*c.params))
-//@   loop 4: invariant params-count: !lazy ==> len(*c.params) == paramCnt
+//@   loop 4: invariant @C01,C09,C11,C12 lazy-len: lazy ==> len(*c.params) <= old(len(*c.params))
+//@   loop 4: invariant @C01,C09,C11,C12 params-count: !lazy ==> len(*c.params) == paramCnt
 //@   loop 5: invariant current != nil && 0 <= i#4 && i#4 <= len(current.childKeys) && idx == -1 && subCtxOK(subCtx, c) && hasSkpNds == (len(*c.skipNds) > 0)
-//@   loop 5: invariant stack: stackOK(c, host) && stackMono(c)
+//@   loop 5: invariant @C01,C09,C11,C12 stack: stackOK(c, host) && stackMono(c)
 //@   loop 5: invariant live: !released[box(c)]
-//@   loop 5: invariant lazy-len: lazy ==> len(*c.params) <= old(len(*c.params))
-//@   loop 5: invariant tsr-n: (tsr <==> n != nil) && (n != nil ==> n.route != nil)
+//@   loop 5: invariant @C01,C09,C11,C12 lazy-len: lazy ==> len(*c.params) <= old(len(*c.params))
+//@   loop 5: invariant tsr-n: (tsr ==> n != nil) && (n != nil ==> n.route != nil)
